@@ -182,7 +182,12 @@ def main():
     builds = []
     for b in P.get("builds", ["debug", "release"]):
         prof = "release" if "release" in b else "debug"
-        okb, exe = vlib.harness_build(profile=prof, hooks=not b.startswith("plain"))
+        feats = None
+        if "+alloconly" in b:
+            feats = ["alloc"]
+        elif "+nofeatures" in b:
+            feats = []
+        okb, exe = vlib.harness_build(profile=prof, hooks=not b.startswith("plain"), features=feats)
         if not okb:
             # the repository no longer builds: nothing can be said; report as broken correspondence
             broken.append(("correspondence", f"harness build ({b})", exe[-800:]))
@@ -227,6 +232,10 @@ def main():
             # correspondence with the model
             if model_rows is not None:
                 mres, mtr = model_rows[i]
+                if P.get("canon"):
+                    if mres == "n/a" or res in ("BadCase", "UnknownOp"):
+                        continue
+                    cres = P["canon"](op, cres); mres = P["canon"](op, mres)
                 if "release" in bname and vlib.debug_only_panic(mres):
                     # debug_assert!/overflow checks are compiled out in release builds: what the
                     # implementation does after such a point is outside the model
